@@ -68,7 +68,7 @@ MsOnlyP1  == [p \in Peers |-> IF p = "p1" THEN "v1" ELSE "bad"]
 MsSet     == {MsGood, MsP2Bad, MsOnlyP1}
 Defaults  == {<<0 - 1, 0 - 1>>, <<1, 2>>, <<2, 3>>}
 EnvOf(fo, d, st, m, fl) == [follower |-> fo, dmin |-> d[1], dmax |-> d[2], strat |-> st, ms |-> m, paths |-> AllPaths,
-                            blocks |-> AllBlocks, fail |-> fl, logfail |-> <<>>]
+                            blocks |-> AllBlocks, fail |-> fl, logfail |-> <<>>, deferred |-> FALSE]
 WithLF(e, lf) == [e EXCEPT !.logfail = lf]
 \* consensus faults: LogUnpin failing for a shard in either position, the cluster-DAG, the meta pin, a data pin;
 \* LogPin failing for a CID
